@@ -327,7 +327,31 @@ func (a *analysis) walk(f *sx, path []pcell, c actx) {
 		for _, x := range args[1:] {
 			a.walk(x, p2, c)
 		}
-	case "funcall", "mapcar":
+	case "prog", "prog*":
+		cc := c.withBlock("nil", depth)
+		for _, b := range args[0].List {
+			if b.IsL && 1 < len(b.List) {
+				a.sub(b.List[1], h+".init", path, cc)
+			}
+		}
+		tags := map[string]int{}
+		for i, st := range args[1:] {
+			if !st.IsL {
+				tags[st.Atom] = i
+			}
+		}
+		cc = cc.withTB(tags, depth)
+		for i, st := range args[1:] {
+			if st.IsL {
+				a.walk(st, append(path[:len(path):len(path)], pcell{cell: h + ".body", idx: i}), cc)
+			}
+		}
+	case "loop":
+		cc := c.withBlock("nil", depth)
+		for _, x := range args {
+			a.sub(x, "loop.body", path, cc)
+		}
+	case "funcall", "mapcar", "mapc", "maplist", "mapl":
 		for i, x := range args {
 			if i == 0 && x.head() == "lambda" {
 				a.walkBody(h+"-lambda", x.List[2:], path, c)
